@@ -53,7 +53,7 @@ ENCODED = [
 ASSUMES = [
     "httpx boundary = ScriptedClient: .stream(...) is an async context manager; entering it either raises "
     "httpx.ConnectError (fault kind -1) or calls the REAL lifted _WorkflowAPI._stream_events with the request's "
-    "query params/headers; the response exposes status_code / raise_for_status / aiter_lines only",
+    "query params/headers; the response exposes status_code / raise_for_status / aiter_lines (httpx's own LineDecoder) / aiter_text",
     "a fault is 'connect error' or 'the connection dies after d complete lines': aiter_lines delivers a line once its "
     "terminating '\\n' was received and raises httpx.ReadError instead of the first line whose newline was not; a "
     "partial line is never delivered (httpx LineDecoder keeps it in its buffer and the exception skips flush()); "
@@ -91,6 +91,7 @@ if _FRAME != "id: {sequence}\ndata: {payload}\n\n":
 
 class Ev(Event):
     n: int
+    text: str = ""
 
 
 class Internal(InternalDispatchEvent):
@@ -125,7 +126,8 @@ class _Resp:
             raise httpx.HTTPStatusError("status", request=None, response=None)  # type: ignore[arg-type]
         return self
 
-    async def aiter_lines(self):
+    async def _delivered(self):
+        """what the network delivers: the body text cut into "\n"-terminated pieces, up to the fault"""
         off = 0
         buf = ""
         async for chunk in self._body:
@@ -139,9 +141,24 @@ class _Resp:
                 if self._cut is not None and off > self._cut:
                     raise httpx.ReadError("connection dropped")
                 self.lines_delivered += 1
-                yield ln
+                yield ln + "\n"
         if buf:
             yield buf
+
+    async def aiter_text(self):
+        async for piece in self._delivered():
+            yield piece
+
+    async def aiter_lines(self):
+        # httpx's own line splitting (it also splits at \r, \x0b, \x0c, \x1c-\x1e, \x85, U+2028, U+2029), not a plain "\n" split
+        from httpx._decoders import LineDecoder
+
+        dec = LineDecoder()
+        async for piece in self._delivered():
+            for line in dec.decode(piece):
+                yield line
+        for line in dec.flush():
+            yield line
 
     async def aclose(self) -> None:
         if self._body is not None:
@@ -206,6 +223,9 @@ def _concrete(i: int, lo: int, hi: int) -> int:
     return hi
 
 
+_TEXT: List[Any] = [None]   # text carried by the plain events' payload (ob_payload_line_separators sets it)
+
+
 def _run(t: int, c0: int, incl: bool, ipos: int, mra: int, faults: List[int], live_from: int, gaps: List[int],
          heartbeat: Optional[float], by_chars: bool = False) -> bool:
     """Events 0..t-1 (t-1 is the StopEvent; `ipos` is an internal event if 0 <= ipos < t-1).  Events with index
@@ -224,6 +244,8 @@ def _run(t: int, c0: int, incl: bool, ipos: int, mra: int, faults: List[int], li
                 return EventEnvelopeWithMetadata.from_event(StopEvent(result=i))
             if i == ipos:
                 return EventEnvelopeWithMetadata.from_event(Internal(n=i))
+            if _TEXT[0]:
+                return EventEnvelopeWithMetadata.from_event(Ev(n=i, text=_TEXT[0]))
             return EventEnvelopeWithMetadata.from_event(Ev(n=i))
 
         for i in range(min(live_from, t)):
@@ -348,3 +370,26 @@ def ob_live_log(c0: int, live_from: int, g1: int, g2: int, g3: int, nd: int, d1:
     faults = [_concrete(d1, -1, LMAX), _concrete(d2, -1, LMAX)][:_concrete(nd, 0, 2)]
     gaps = [_concrete(g1, 0, 2), _concrete(g2, 0, 2), _concrete(g3, 0, 2)]
     return _run(3, c0, False, -1, 2, faults, live_from=live_from, gaps=gaps, heartbeat=1.0)
+
+
+
+_SEPS = ["\u2028", "\u2029", "\x85", "\x0b", "\x0c", "\x1c", "\r", "\n", "plain"]
+
+
+@obligation(quick=120, thorough=300,
+            what="event payloads containing characters that Unicode-aware line splitting treats as line ends (U+2028, U+2029, U+0085, VT, FF, FS; JSON "
+                 "leaves them unescaped) and CR / LF (escaped by JSON): the stream still yields every later event once, in order — with and "
+                 "without a dropped connection",
+            bounds={"events": 3, "separator": "8 characters + a plain control", "faults": "0..1", "cursor": "-1..1"})
+def ob_payload_line_separators(si: int, c0: int, nd: int, d1: int) -> bool:
+    """
+    pre: 0 <= si < len(_SEPS) and -1 <= c0 <= 1 and 0 <= nd <= 1 and -1 <= d1 <= 9 and (nd >= 1 or d1 == -1)
+    post: _
+    """
+    si, c0, nd = _concrete(si, 0, len(_SEPS) - 1), _concrete(c0, -1, 1), _concrete(nd, 0, 1)
+    faults = [_concrete(d1, -1, 9)][:nd]
+    _TEXT[0] = "a" + _SEPS[si] + "b"
+    try:
+        return _run(3, c0, False, -1, 1, faults, live_from=3, gaps=[], heartbeat=25.0)
+    finally:
+        _TEXT[0] = None
